@@ -128,11 +128,28 @@ MUTANTS = [
      "                    if tag in prod.cod:\n",
      "CFG.generate: a production whose codomain merely CONTAINS the tag is applied"),
 ]
+MUTANTS += [
+    ("r01", "C05", "discopy/rewriting.py",
+     "    elif off0 >= off1 + len(box1.dom):  # box0 right of box1\n",
+     "    elif off0 >= off1 + len(box1.dom)\\\n            and not off1 >= off0 + len(box0.cod):  # box0 right of box1\n",
+     "refactor: when a box may pass on either side, interchange(left=False) now passes on the left"),
+    ("r03", "C18", "discopy/grammar/cfg.py",
+     "                random.shuffle(prods)\n",
+     "                random.shuffle(prods)\n                random.shuffle(prods)\n",
+     "refactor: CFG.generate shuffles twice per expansion (other choices, same guarantees)"),
+    ("r05", "C01", "discopy/rigid.py",
+     "        if left.r != right and left != right.r:\n            raise AxiomError(messages.are_not_adjoints(left, right))\n        self.left, self.right = left, right\n        super().__init__(\"Cup({}, {})\".format(left, right), left @ right, Ty())",
+     "        if left.r != right and left != right.r:\n            raise ValueError(\"{} cannot be cupped with {}\".format(left, right))\n        self.left, self.right = left, right\n        super().__init__(\"Cup({}, {})\".format(left, right), left @ right, Ty())",
+     "refactor: a non-adjoint Cup is refused with another exception class and message"),
+]
 DISABLED = {"m14", "m15", "m16"}
 # changes under which every property still holds: the check must stay CLEAN (soundness)
 EXPECT_CLEAN = {
     "m08": "refactor: foliate takes the other, equally legal, side when a box can pass on both",
     "m22": "equivalent for gates on <= 2 qubits (source == offset needs a third operand), i.e. on the supported gate set",
+    "r01": "C05 does not fix the tie-break between two legal sides",
+    "r03": "C18 quantifies over every outcome of the PRNG",
+    "r05": "C01 only asks that ill-typed requests be refused with an error",
 }
 
 
